@@ -95,4 +95,13 @@ def reinsertHap : List (Option Nat) → Hap → Hap
 
 def reinsert (fixed : List (Option Nat)) (g : Genotype) : Genotype := g.map (reinsertHap fixed)
 
+/-- the columns that are sampled (`x[..., heterozygous]`): drop every fixed site -/
+def restrictHap : List (Option Nat) → Hap → Hap
+  | [], _ => []
+  | _ :: _, [] => []
+  | some _ :: fs, _ :: h => restrictHap fs h
+  | none :: fs, x :: h => x :: restrictHap fs h
+
+def restrict (fixed : List (Option Nat)) (g : Genotype) : Genotype := g.map (restrictHap fixed)
+
 end MCHap
